@@ -233,7 +233,7 @@ def shape_kind_ok(e: dict, g: str) -> bool:
         # an inline enum is not a reference to a declared enum: its base type is as much as the statement asks for
         return g.startswith("enum:") or g == ("int" if isinstance(e["values"][0], int) else "str")
     if k == "ref":
-        if e.get("nullable"):
+        if e.get("nullable") or e.get("sibling_nullable"):
             # the 3.0 spelling of a nullable reference is allOf [$ref]: a new anonymous schema composed of the target;
             # the generator may name it (a model with the target's fields, judged field by field through C03)
             return g.startswith("ref:") or g.startswith("fwd:")
